@@ -983,7 +983,14 @@ func (w *_assemblerRepr) AssignNode(node datamodel.Node) error {
 	if uintNode, ok := node.(datamodel.UintNode); ok {
 		return w.assignUInt(uintNode)
 	}
-	return datamodel.Copy(node, w)
+	if err := datamodel.Copy(node, w); err != nil {
+		// as at type level: a refused value leaves no trace of the part that had been copied
+		if w.val.CanSet() {
+			w.val.Set(reflect.Zero(w.val.Type()))
+		}
+		return err
+	}
+	return nil
 }
 
 func (w *_assemblerRepr) Prototype() datamodel.NodePrototype {
